@@ -69,6 +69,11 @@ Definition obs_eqb (a b : obs) : bool :=
 
 (* ---- P on the implementation trace ------------------------------------------ *)
 
+(* The events carry, per Run, whether the harness had cancelled the context
+   before the Run (r_shutdown) and whether it cancelled it during the Run
+   before Synchronize was called (r_late, recorded as it happened); the
+   monitor's m_shut remembers across items that shutdown began. *)
+
 Fixpoint viol_from (i : nat) (m : mon) (b : obm) (its : list item) : verdict :=
   match its with
   | [] => VOk
